@@ -13,8 +13,8 @@ TRUSTED = ["L1 model coq/*.v", "checks/sbdfgen.py reference encoder"]
 ASSUMES = ["the stream is a regular file (ftell/fseek semantics)"]
 
 
-def va_case(cid, rng, ty, elems, layout, level):
-    e = G.Enc()
+def va_case(cid, rng, ty, elems, layout, level, be=False):
+    e = G.Enc(be)
     if level == "va":
         e.va(ty, elems, layout)
     else:
@@ -43,9 +43,9 @@ def va_case(cid, rng, ty, elems, layout, level):
                 meta={"dist": {"level": level, "type": ty, "layout": layout[0], "len": min(len(elems), 300) // 50 * 50}})
 
 
-def cases(rng, tier):
+def cases(rng, tier, be=False):
     idx = 0
-    n = {"quick": 700, "thorough": 15000, "search": 500}[tier]
+    n = {"quick": 700, "thorough": 15000, "search": 500}[tier] // (4 if be else 1)
     sizes = [0, 0, 1, 2, 7, 8, 9, 16, 17, 255, 256, 257, 300]
     for i in range(n):
         ty = rng.choice(ALLTYPES)
@@ -53,8 +53,8 @@ def cases(rng, tier):
         if ty in (STRING, BINARY) and cnt > 60: cnt = rng.randint(0, 60)
         elems = rand_array(rng, ty, cnt)
         idx += 1
-        yield va_case("v%d" % idx, rng, ty, elems, G.random_layout(rng, ty, elems), rng.choice(["va", "va", "cs"]))
-    ntab = {"quick": 40, "thorough": 600, "search": 25}[tier]
+        yield va_case("%sv%d" % ("be-" if be else "", idx), rng, ty, elems, G.random_layout(rng, ty, elems), rng.choice(["va", "va", "cs"]), be)
+    ntab = {"quick": 40, "thorough": 600, "search": 25}[tier] // (3 if be else 1)
     for i in range(ntab):
         ncols = rng.choice([1, 2, 3, 4, 5, 6, 7])
         t = G.rand_table(rng, ncols=ncols, nslices=rng.choice([1, 2]), maxrows=20)
@@ -64,7 +64,7 @@ def cases(rng, tier):
                 layouts[(si, ci, -1)] = G.random_layout(rng, t["cols"][ci]["ty"], col["vals"])
                 for pi, (pn, pty, elems, pk) in enumerate(col["props"]):
                     layouts[(si, ci, pi)] = G.random_layout(rng, pty, elems)
-        data = bytes(G.encode_table(t, layouts=layouts).b)
+        data = bytes(G.encode_table(t, layouts=layouts, be=be).b)
         subsets = ["".join(s) for s in itertools.product("01", repeat=ncols)] if ncols <= (5 if tier != "search" else 3) else \
             ["".join(rng.choice("01") for _ in range(ncols)) for _ in range(12)] + ["0" * ncols, "1" * ncols]
         lines = ["in 1 %s" % hx(data), "session 1 *"]
@@ -91,4 +91,42 @@ def cases(rng, tier):
                 f.append("sbdf_ts_skip: end=%s n=%s pos=%s, full read: end=-1000 n=%s pos=%s" % (d["end"], d["n"], d["pos"], full["n"], full["pos"]))
             return f[:5]
         idx += 1
-        yield Case("t%d" % idx, lines, oracle=oracle, meta={"dist": {"level": "table", "cols": ncols, "subsets": len(subsets)}})
+        yield Case("%st%d" % ("be-" if be else "", idx), lines, oracle=oracle, meta={"dist": {"level": "table", "cols": ncols, "subsets": len(subsets)}})
+    if not be:
+        yield from big_cases(rng, tier)
+
+
+def big_cases(rng, tier):
+    """the same sections at the start of a stream of more than 2 GiB (sparse): sizes and offsets beyond INT_MAX"""
+    for i in range({"quick": 12, "thorough": 100, "search": 6}[tier]):
+        ty = rng.choice(ALLTYPES); cnt = rng.choice([1, 3, 9, 20])
+        elems = rand_array(rng, ty, cnt)
+        c = va_case("big-v%d" % i, rng, ty, elems, G.random_layout(rng, ty, elems), rng.choice(["va", "cs"]))
+        c.lines = [l.replace("in ", "inbig ", 1) if l.startswith("in ") else l for l in c.lines]
+        c.compare = False
+        yield c
+    for i in range({"quick": 4, "thorough": 30, "search": 2}[tier]):
+        ncols = rng.choice([2, 3, 4])
+        t = G.rand_table(rng, ncols=ncols, nslices=1, maxrows=8)
+        data = bytes(G.encode_table(t).b)
+        subs = ["1" * ncols, "0" * ncols, "".join(rng.choice("01") for _ in range(ncols))]
+        lines = ["inbig 1 %s" % hx(data), "session 1 *"]
+        for k, sub in enumerate(subs):
+            lines += ["inbig %d %s" % (k + 2, hx(data)), "session %d %s" % (k + 2, sub)]
+        lines += ["inbig 9 %s" % hx(data), "session 9 skip"]
+
+        def oracle(c, subs=subs, n=len(data)):
+            f = []
+            full = parse_session(c.val(2))
+            if full["end"] != -1000 or full["pos"] != n: return ["full read at the start of a >2 GiB stream: end=%s pos=%s" % (full["end"], full["pos"])]
+            for k, sub in enumerate(subs):
+                d = parse_session(c.val(2 * k + 4))
+                if d["end"] != -1000 or d["pos"] != full["pos"]: f.append("subset %s in a >2 GiB stream: end=%s pos=%s, full read: end=-1000 pos=%s" % (sub, d["end"], d["pos"], full["pos"]))
+            d = parse_session(c.val(2 * len(subs) + 4))
+            if d["end"] != -1000 or d["pos"] != full["pos"]: f.append("sbdf_ts_skip in a >2 GiB stream: end=%s pos=%s" % (d["end"], d["pos"]))
+            return f
+        yield Case("big-t%d" % i, lines, oracle=oracle, compare=False, meta={"dist": {"level": "table-2GiB"}})
+
+
+def be_cases(rng, tier):
+    return cases(rng, tier, be=True)
